@@ -282,6 +282,10 @@ func runC20(p *Prog, r *Report, tier string) {
 	// ---- panicking constructors
 	checkCtors(p, r, reach, fc, plens)
 
+	if tier == "thorough" {
+		bceCrossRef(p, r, sites, reach)
+	}
+
 	// ---- positive controls
 	if p.ControlSSA == nil {
 		r.fail("positive-control", "positive-control/fixture", "", "positive-control fixture not loaded")
